@@ -41,6 +41,14 @@ Theorem shipped_roundtrip : forall key_ok name fs vs bs (pre suf : bytes),
 Proof. exact shipped_roundtrip_l. Qed.
 Print Assumptions shipped_roundtrip.
 
+(* Open finding: the documentation prescribes big-endian length prefixes and values throughout; as built the
+   array formats are in machine (little-endian) order.  Witness: one boolean. *)
+Theorem array_formats_big_endian_refuted :
+  exists v bs, pack (fun _ => true) (FArray PBool 2) v = Ok bs /\ bs <> be_encode 2 1 ++ [1%Z] /\
+  pack (fun _ => true) (FArray (PS 8) 2) (VList [VInt 1]) <> Ok (be_encode 2 1 ++ be_encode 8 1).
+Proof. exists (VList [VBool true]), [1; 0; 1]%Z. vm_compute. repeat split; congruence. Qed.
+Print Assumptions array_formats_big_endian_refuted.
+
 (* non-vacuity: a nested, listed message with a domain address actually round-trips at offset 3 *)
 Example c02_nonvacuous :
   let k := fun _ : bytes => true in
